@@ -71,7 +71,7 @@ def run_shards(prop, tier, seed, nshards, timeout, extra=None):
 def merge(results):
     tot = {
         "cases": 0, "counters": Counter(), "violations": [], "known": [], "samples": [],
-        "digests": set(), "notes": [], "inconclusive": [], "monitors": {}, "reach": Counter(),
+        "digests": set(), "notes": [], "inconclusive": [], "monitors": {}, "reach": Counter(), "lines": {},
         "exhaustive": None,
     }
     for r, why in results:
@@ -89,6 +89,8 @@ def merge(results):
         tot["inconclusive"] += r.get("inconclusive", [])
         tot["monitors"].update(r.get("monitors", {}))
         tot["reach"].update(r.get("reach", {}))
+        for f, ls in r.get("lines", {}).items():
+            tot["lines"].setdefault(f, set()).update(ls)
         if "exhaustive" in r:
             tot["exhaustive"] = r["exhaustive"] if tot["exhaustive"] in (None, True) else False
     return tot
@@ -193,6 +195,18 @@ def main(argv=None):
     }
     if tot["exhaustive"] is not None:
         cov["exhaustive"] = bool(tot["exhaustive"])
+    if tot["lines"]:
+        from . import monitors as M
+        from .util import REPO
+
+        ex = M.executable_lines(REPO)
+        lib = {}
+        for f, want in sorted(ex.items()):
+            if not want:
+                continue
+            got = tot["lines"].get(f, set()) & want
+            lib[f] = {"function_lines": len(want), "executed": len(got), "never_executed": sorted(want - got)}
+        cov["library_lines"] = lib
     ev = {
         "property_id": prop,
         "tier": a.tier,
